@@ -267,3 +267,91 @@ def gen_coro_segments(nseg, seed, skip=(), prefix='coro'):
                     s = rnd.choice(cands); del exps[s]; ops.append('crelease %d' % s)
         out.append(('%s-%d-%d' % (prefix, seed, n), ops))
     return out
+
+# ---------------------------------------------------------------- C12: concurrent scripts
+
+CONC_SHAPES = [2, 3, 5, 6, 9, 11, 26, 27, 50, 54, 12]
+
+def gen_conc_segments(nseg, seed, nthreads=(2, 4), oplen=(3, 14), prefix='conc'):
+    """prelude (main thread): shared mock 0, one own mock per thread, shared sequences 1..2, one watched object per thread.
+    Each thread owns two expectation slots, one monitor and one object (caller obligation: nobody else
+    destroys or queries them); calls go to the shared mock and to the thread's own mock."""
+    rnd = random.Random(seed)
+    out = []
+    bounds = [(1, 1), (0, 1), (1, 2), (2, 2), (0, INF), (1, INF), (2, 3)]
+    for n in range(nseg):
+        T = rnd.randint(*nthreads)
+        T = min(T, 3)                       # 3 threads x 2 slots = 6 slots, 3 objects, 3 monitors
+        lines = ['pre mock 0', 'pre seq 1', 'pre seq 2']
+        for t in range(T):
+            if t + 1 < NMOCK:
+                lines.append('pre mock %d' % (t + 1))
+            lines.append('pre obj %d' % (t + 1))
+        for t in range(T):
+            own_slots = [2 * t + 1, 2 * t + 2]
+            own_mock = t + 1 if t + 1 < NMOCK else 0
+            own_mock_alive = own_mock != 0
+            live = {}
+            mon_alive = False
+            obj_alive = True
+            k = t + 1
+            L = rnd.randint(*oplen)
+            cnt = 0
+            while cnt < L:
+                kind = rnd.choices(['expect', 'call', 'release', 'query', 'iscompleted', 'watch', 'dobj', 'unwatch', 'mquery', 'dmock'],
+                                   [6, 12, 3, 3, 3, 1.5, 1.2, 0.8, 1, 0.3])[0]
+                if kind == 'expect':
+                    free = [s for s in own_slots if s not in live]
+                    if not free:
+                        continue
+                    s = rnd.choice(free)
+                    sh = rnd.choice(CONC_SHAPES)
+                    d = DERIVED[sh]
+                    mocks = [0] + ([own_mock] if own_mock_alive else [])
+                    m = rnd.choice(mocks)
+                    lo, hi = rnd.choice(bounds)
+                    if sh == 12:
+                        lo, hi = 0, 0
+                    q = rnd.sample([1, 2], d['nq']) + [0, 0]
+                    p = (rnd.choice([(0, 0), (1, 0), (1, 1)]), (0, 0))
+                    w = ((rnd.choice([(0, 0), (1, 0), (2, 0)]) if d['nw'] else (0, 0)), (0, 0), (0, 0))
+                    lines.append('thr %d %s' % (t, expect_line(s, sh, m, p, w, (0, 0, 0), 100 * s + rnd.randint(0, 9), lo, hi, (q[0], q[1]))))
+                    live[s] = sh
+                elif kind == 'call':
+                    mocks = [0, 0] + ([own_mock] if own_mock_alive else [])
+                    lines.append('thr %d call %d %d %d 0' % (t, rnd.choice(mocks), rnd.choice([1, 1, 1, 4]), rnd.choice([0, 1])))
+                elif kind == 'release':
+                    if not live:
+                        continue
+                    s = rnd.choice(sorted(live)); del live[s]; lines.append('thr %d release %d' % (t, s))
+                elif kind == 'query':
+                    if not live:
+                        continue
+                    lines.append('thr %d query %d' % (t, rnd.choice(sorted(live))))
+                elif kind == 'iscompleted':
+                    lines.append('thr %d iscompleted %d' % (t, rnd.choice([1, 2])))
+                elif kind == 'watch':
+                    if mon_alive or not obj_alive:
+                        continue
+                    nq = rnd.choice([0, 1, 1, 2])
+                    q = rnd.sample([1, 2], nq) + [0, 0]
+                    lines.append('thr %d watch %d %d %d %d %d' % (t, k, k, nq, q[0], q[1])); mon_alive = True
+                elif kind == 'dobj':
+                    if not obj_alive:
+                        continue
+                    lines.append('thr %d dobj %d' % (t, k)); obj_alive = False
+                elif kind == 'unwatch':
+                    if not mon_alive:
+                        continue
+                    lines.append('thr %d unwatch %d' % (t, k)); mon_alive = False
+                elif kind == 'mquery':
+                    if not mon_alive:
+                        continue
+                    lines.append('thr %d mquery %d' % (t, k))
+                elif kind == 'dmock':
+                    if not own_mock_alive:
+                        continue
+                    lines.append('thr %d dmock %d' % (t, own_mock)); own_mock_alive = False
+                cnt += 1
+        out.append(('%s-%d-%d' % (prefix, seed, n), lines))
+    return out
